@@ -853,6 +853,15 @@ Definition shape_file (f : file) : option pfile :=
 Definition split_message (attrs : list str) (removed : list (list str)) : list str :=
   filter (fun a => negb (existsb (mem a) removed)) attrs.
 
+(* with an explicit Message(...) DSL the listed attributes come first, in the listed
+   order; the other unmapped attributes follow in payload order *)
+Definition build_message (listed attrs : list str) (removed : list (list str)) : list str :=
+  listed ++ split_message attrs (listed :: removed).
+
+(* Finalize: a metadata (header, trailer) attribute is required exactly when the
+   payload (result) requires it *)
+Definition required_metadata (md required : list str) : list str := filter (fun a => mem a required) md.
+
 (* ------------------------------------- request metadata and the handler's order *)
 (* grpc/client.go Invoke: the request encoder appends to the metadata the caller's
    context already carries (or to an empty one); the result is what the server's
@@ -880,3 +889,9 @@ Inductive stage := SDecode | SEndpoint | SEncode.
 
 Definition handle_trace (decode_ok endpoint_ok : bool) : list stage :=
   SDecode :: (if decode_ok then SEndpoint :: (if endpoint_ok then [SEncode] else []) else []).
+
+(* the response metadata of one call: what the endpoint sent early, then what the
+   response encoder wrote; the handler takes fresh header / trailer maps for every
+   call, so a history of calls is just the calls one by one *)
+Definition run_history (calls : list (mdata * list (str * list str))) : list mdata :=
+  map (fun c => md_write (fst c) (snd c)) calls.
